@@ -7,7 +7,7 @@ import (
 
 func init() { handlers["layout"] = layoutH }
 
-// case: srcA(hex) \t commentsA(hex,comma) \t srcB(hex) \t commentsB(hex,comma)
+// case: srcA(hex) \t commentsA(c+hex,comma) \t srcB(hex) \t commentsB(c+hex,comma)
 // Both renderings of one program must parse to the same skeleton and return exactly their own comments, in order.
 func layoutH(line string) string {
 	f := strings.Split(line, "\t")
@@ -27,7 +27,7 @@ func layoutH(line string) string {
 		}
 		var want []string
 		for _, h := range splitNE(f[2*i+1], ",") {
-			want = append(want, unhex(h))
+			want = append(want, unhex(strings.TrimPrefix(h, "c")))
 		}
 		if len(want) != len(r[i].c) {
 			return "FAIL:comments:" + strconv.Itoa(i) + ":got=" + strconv.Itoa(len(r[i].c)) + ":want=" + strconv.Itoa(len(want))
